@@ -6,7 +6,9 @@ package spynode
 // Semi-live: everything is stepped by the harness, but the real checkTxDelays goroutine runs.
 
 import (
+	"context"
 	"fmt"
+	"sync"
 	"testing"
 	"time"
 
@@ -23,6 +25,57 @@ type C07Event struct {
 	Tx  int    `json:"tx,omitempty"`  // transaction number
 	Ms  int    `json:"ms,omitempty"`  // age: logical milliseconds
 	Txs []int  `json:"txs,omitempty"` // mine
+	// window: the delay checker is held at its K-th storage operation from now (0 = next) while
+	// the Sub events run, then released: a generated point in its relative timing against
+	// transaction and block processing
+	K   int        `json:"k,omitempty"`
+	Sub []C07Event `json:"sub,omitempty"`
+}
+
+// c07Gate holds the delay checker goroutine at a chosen storage operation.
+type c07Gate struct {
+	mu        sync.Mutex
+	armed     bool
+	countdown int
+	paused    chan struct{}
+	resume    chan struct{}
+}
+
+func (g *c07Gate) hook(ctx context.Context, op, key string) {
+	if role, _ := ctx.Value(verifkit.RoleKey).(string); role != "checker" {
+		return
+	}
+	g.mu.Lock()
+	if !g.armed {
+		g.mu.Unlock()
+		return
+	}
+	if g.countdown > 0 {
+		g.countdown--
+		g.mu.Unlock()
+		return
+	}
+	g.armed = false
+	p, r := g.paused, g.resume
+	g.mu.Unlock()
+	close(p)
+	<-r
+}
+
+func (g *c07Gate) arm(k int) {
+	g.mu.Lock()
+	g.armed, g.countdown = true, k
+	g.paused, g.resume = make(chan struct{}), make(chan struct{})
+	g.mu.Unlock()
+}
+
+// disarm returns true if the gate had not fired (nothing is held).
+func (g *c07Gate) disarm() bool {
+	g.mu.Lock()
+	defer g.mu.Unlock()
+	was := g.armed
+	g.armed = false
+	return was
 }
 
 // C07Scenario is a complete C07 case.
@@ -57,7 +110,10 @@ func c07Run(sc *C07Scenario) (v *nodeViolation, flags map[string]bool) {
 	cfg.SafeTxDelay = sc.DelayMs
 	delay := time.Duration(sc.DelayMs) * time.Millisecond
 	peer := newFakePeer(tree, a1)
-	sn := newStepNode(cfg, verifkit.NewMemStore(true), peer, fetch)
+	gate := &c07Gate{}
+	store := verifkit.NewMemStore(true)
+	store.SetGate(gate.hook)
+	sn := newStepNode(cfg, store, peer, fetch)
 	sn.subs = subUniverse
 	if err := sn.boot(); err != nil {
 		return &nodeViolation{"C07/harness/boot", err.Error()}, flags
@@ -74,7 +130,7 @@ func c07Run(sc *C07Scenario) (v *nodeViolation, flags map[string]bool) {
 	startChecker := func() func() {
 		n := sn.node
 		done := make(chan struct{})
-		go func() { n.checkTxDelays(sn.ctx); close(done) }()
+		go func() { n.checkTxDelays(context.WithValue(sn.ctx, verifkit.RoleKey, "checker")); close(done) }()
 		return func() {
 			n.lock.Lock()
 			n.stopping = true // ends the checker loop of this (finished) node object
@@ -154,12 +210,64 @@ func c07Run(sc *C07Scenario) (v *nodeViolation, flags map[string]bool) {
 		}
 	}
 
-	for _, ev := range sc.Events {
+	var exec func(ev C07Event, inWindow bool) *nodeViolation
+	exec = func(ev C07Event, inWindow bool) *nodeViolation {
 		i := 0
 		if len(txs) > 0 {
 			i = ev.Tx % len(txs)
 		}
 		switch ev.Op {
+		case "window":
+			if inWindow {
+				return nil
+			}
+			gate.arm(ev.K)
+			held := false
+			select {
+			case <-gate.paused:
+				held = true
+			case <-time.After(350 * time.Millisecond):
+				if !gate.disarm() {
+					<-gate.paused // fired in the meantime
+					held = true
+				}
+			}
+			if !held {
+				flags["window-missed"] = true
+				return nil
+			}
+			flags["window-hit"] = true
+			// the events run beside the held checker; if they need something the checker holds they
+			// block, and the checker is released first (the other order of the two critical sections)
+			done := make(chan *nodeViolation, 1)
+			go func() {
+				var wv *nodeViolation
+				defer func() {
+					if r := recover(); r != nil {
+						wv = &nodeViolation{"C07/panic", fmt.Sprintf("panic: %v\n%s", r, shortStack())}
+					}
+					done <- wv
+				}()
+				for _, sub := range ev.Sub {
+					if sub.Op == "window" || sub.Op == "restart" || sub.Op == "tick" {
+						continue
+					}
+					if wv = exec(sub, true); wv != nil {
+						break
+					}
+				}
+			}()
+			var wv *nodeViolation
+			select {
+			case wv = <-done:
+				close(gate.resume)
+			case <-time.After(300 * time.Millisecond):
+				flags["window-blocked-on-checker"] = true
+				close(gate.resume)
+				wv = <-done
+			}
+			time.Sleep(20 * time.Millisecond) // let the released checker finish its pass
+			return wv
 		case "tinv":
 			inv := wire.NewMsgInv()
 			h := *txs[i].TxHash()
@@ -241,16 +349,20 @@ func c07Run(sc *C07Scenario) (v *nodeViolation, flags map[string]bool) {
 				flags["confirmation"] = true
 			}
 		case "restart":
+			if inWindow {
+				return nil
+			}
 			for process() {
 			}
 			stopChecker()
 			if err := sn.cleanRestart(); err != nil {
 				stopChecker = func() {}
-				return &nodeViolation{"C07/restart/load-failed", err.Error()}, flags
+				return &nodeViolation{"C07/restart/load-failed", err.Error()}
 			}
+			sn.store.SetGate(gate.hook)
 			if ok, _ := sn.fairCompletion(func() bool { c, _ := sn.converged(); return c && sn.node.state.IsReady() && sn.peer.sendHeaders }, 60); !ok {
 				stopChecker = func() {}
-				return &nodeViolation{"C07/restart/no-resync", "node did not get back in sync after a clean restart"}, flags
+				return &nodeViolation{"C07/restart/no-resync", "node did not get back in sync after a clean restart"}
 			}
 			stopChecker = startChecker()
 			pool = map[int]bool{}
@@ -265,10 +377,16 @@ func c07Run(sc *C07Scenario) (v *nodeViolation, flags map[string]bool) {
 			flags["restart"] = true
 		}
 		if sn.blockThreadDead != "" {
-			return &nodeViolation{"C07/block-thread-exit", sn.blockThreadDead}, flags
+			return &nodeViolation{"C07/block-thread-exit", sn.blockThreadDead}
 		}
 		if sn.txThreadDead != "" {
-			return &nodeViolation{"C07/tx-thread-exit", sn.txThreadDead}, flags
+			return &nodeViolation{"C07/tx-thread-exit", sn.txThreadDead}
+		}
+		return nil
+	}
+	for _, ev := range sc.Events {
+		if ev := exec(ev, false); ev != nil {
+			return ev, flags
 		}
 	}
 	for process() {
@@ -460,10 +578,38 @@ func genC07(t *rapid.T) *C07Scenario {
 		}
 		sc.Events = append(sc.Events, ev)
 	}
+	// half of the cases end with a generated race window: something was delivered and has aged past
+	// the delay, the checker is held at one of its storage operations while other events run
+	if rapid.Bool().Draw(t, "window") {
+		x := rapid.IntRange(0, n-1).Draw(t, "wtx")
+		sc.Events = append(sc.Events, C07Event{Op: rapid.SampledFrom([]string{"tbody", "tbody", "tinv"}).Draw(t, "wsrc"), Tx: x})
+		if rapid.Bool().Draw(t, "wub") {
+			sc.Events = append(sc.Events, C07Event{Op: "ubody", Tx: x})
+		}
+		sc.Events = append(sc.Events, C07Event{Op: "txstep"}, C07Event{Op: "txstep"})
+		w := C07Event{Op: "window", K: rapid.IntRange(0, 2).Draw(t, "wk")}
+		for c, cnt := 0, rapid.IntRange(1, 4).Draw(t, "wcnt"); c < cnt; c++ {
+			sub := C07Event{Op: rapid.SampledFrom([]string{"tbody", "ubody", "ubody", "submit", "txstep", "txstep", "mine"}).Draw(t, "wop")}
+			switch sub.Op {
+			case "tbody", "ubody", "submit":
+				sub.Tx = rapid.IntRange(0, n-1).Draw(t, "wstx")
+			case "mine":
+				for m, mc := 0, rapid.IntRange(0, 2).Draw(t, "wmc"); m < mc; m++ {
+					sub.Txs = append(sub.Txs, rapid.IntRange(0, n-1).Draw(t, "wmtx"))
+				}
+			}
+			w.Sub = append(w.Sub, sub)
+		}
+		if rapid.Bool().Draw(t, "wflush") {
+			w.Sub = append(w.Sub, C07Event{Op: "txstep"}, C07Event{Op: "txstep"})
+		}
+		// the window is armed first, then time passes: the checker's next pass finds the aged tx
+		sc.Events = append(sc.Events, C07Event{Op: "age", Ms: sc.DelayMs + 150}, w)
+	}
 	return sc
 }
 
-const c07Rule = "semi-live histories (harness steps everything, the real checkTxDelays goroutine ticks every 100 ms; safe delay 200/1000/5000 ms; logical time = real time + shifts through the hook): untrusted body / trusted inv / trusted body / local submit, conflicts before, between and after the delay expiry, confirmations, clean restarts; oracle: flag invariants on every notification, safe only if vouched and no known conflict, at most one newly-safe report, and bounded liveness (safe report within 20 ticks once eligible); non-trivial = a vouch and either a conflict, a delay crossing or a liveness wait; distinct by scenario hash"
+const c07Rule = "semi-live histories (harness steps everything, the real checkTxDelays goroutine ticks every 100 ms; safe delay 200/1000/5000 ms; logical time = real time + shifts through the hook): untrusted body / trusted inv / trusted body / local submit, conflicts before, between and after the delay expiry, confirmations, clean restarts, and race windows in which the checker goroutine is held at a generated one of its storage operations while generated transaction/block events run; oracle: flag invariants on every notification, safe only if vouched and no known conflict, at most one newly-safe report, and bounded liveness (safe report within 20 ticks once eligible); non-trivial = a vouch and either a conflict, a delay crossing or a liveness wait; distinct by scenario hash"
 
 func TestC07Safe(t *testing.T) {
 	rep := verifkit.NewReport("C07", "TestC07Safe", c07Rule)
